@@ -121,3 +121,117 @@ def c05(tier):
     f.result()
     f2.result()
   return run.finish()
+
+
+# ---------------------------------------------------------------- C16
+def _ld_seq_trace(rng, cap, nops):
+  """random single-threaded op sequence on the real LockingDeque (real queue.Queue; nothing may block)"""
+  import queue
+  import miros.hsm as mh
+  import miros.activeobject as ma
+  old = mh.HsmWithQueues.QUEUE_SIZE
+  mh.HsmWithQueues.QUEUE_SIZE = cap
+  try:
+    ld = ma.LockingDeque()
+  finally:
+    mh.HsmWithQueues.QUEUE_SIZE = old
+  ops, nid = [], 0
+  for _ in range(nops):
+    k = rng.choices(["append", "appendleft", "popleft", "pop", "clear", "len"], [30, 25, 15, 10, 6, 8])[0]
+    rec = [k, 0, 0, [], 0, "ok"]
+    try:
+      if k in ("append", "appendleft"):
+        nid += 1
+        rec[1] = nid
+        getattr(ld, k)(nid)
+      elif k in ("popleft", "pop"):
+        if len(ld.deque) == 0:
+          rec[0] = "wait_empty"
+          try:
+            ld.wait(False)
+            rec[5] = "ok"
+          except queue.Empty:
+            rec[5] = "raised:Empty"
+        else:
+          ld.wait(False)                  # a pending event must have its wake-up token
+          rec[2] = getattr(ld, k)()
+      elif k == "clear":
+        ld.clear()
+      else:
+        rec[2] = len(ld)
+        if ld.len() != rec[2]:
+          rec[5] = "len-mismatch"
+    except Exception as ex:  # noqa
+      rec[5] = "raised:" + type(ex).__name__
+    rec[3] = list(ld.deque)
+    rec[4] = ld.locking_queue.qsize()
+    ops.append(rec)
+    if rec[5] not in ("ok", "raised:Empty"):
+      break
+  return ops
+
+
+def _c16_work(args):
+  seed, lo, hi = args
+  out = []
+  for tid in range(lo, hi):
+    rng = random.Random((seed << 20) ^ tid * 7919)
+    cap = rng.choice([1, 2, 3, 4])
+    out.append({"tid": tid, "cap": cap, "ops": _ld_seq_trace(rng, cap, rng.randint(3, 14))})
+  return out
+
+
+def c16(tier):
+  import multiprocessing as mp
+  from checks import seq
+  from harness import gen, seqcheck
+  run = common.Run("C16", tier, "model_checking")
+  run.assumptions += ["single-threaded histories (the concurrent behaviour of the same queue is C04/C05)",
+                      "which older event a full queue gives up is not prescribed: only that the new event is kept at its end and the bound holds"]
+  # (M) all operation sequences on the abstract bounded deque with tokens
+  mcs = [(2, 6), (3, 5)] if tier == "quick" else [(2, 8), (3, 7), (4, 6)]
+  for cap, m in mcs:
+    cfg = ("SPECIFICATION SSpec\nCONSTANTS Cap = %d\nMaxOps = %d\nINVARIANT Bounded\nINVARIANT AtMostOnce\nINVARIANT TokenPerEvent\n"
+           "INVARIANT FifoWhenNoOverflow\nINVARIANT NothingLost\nPROPERTY NewEventKept\nCHECK_DEADLOCK FALSE\n" % (cap, m))
+    r = tlc.run("AOSeq.tla", cfg, workers=8, timeout=3000)
+    tlc.need_ok(r, "AOSeq")
+    if r.violated:
+      raise common.MachineryError("AOSeq.tla violates %s" % r.violated)
+    run.add(states=r.distinct, transitions=r.generated, tlc_runs=["AOSeq cap=%d ops<=%d: %d distinct states; Bounded, TokenPerEvent, NewEventKept, FifoWhenNoOverflow hold" % (cap, m, r.distinct)])
+  # (B1) recorded op sequences on the real LockingDeque
+  n = 4000 if tier == "quick" else 60000
+  chunk = (n + 63) // 64
+  with mp.get_context("fork").Pool(16) as pool:
+    traces = [t for part in pool.map(_c16_work, [(common.seed(), lo, min(n, lo + chunk)) for lo in range(0, n, chunk)]) for t in part]
+  total = 0
+  for cap in sorted({t["cap"] for t in traces}):
+    part = [t for t in traces if t["cap"] == cap]
+    path = os.path.join(common.work_dir(), "ldseq_%d.ndjson" % cap)
+    with open(path, "w") as f:
+      for t in part:
+        f.write(json.dumps(t) + "\n")
+    r = tlc.run("AOSeqTrace.tla", "SPECIFICATION TSpec\nCONSTANTS Cap = %d\nMaxOps = 0\nINVARIANT Bounded\nCHECK_DEADLOCK FALSE\n" % cap,
+                workers="auto", env={"TRACE_FILE": path}, timeout=1800)
+    os.unlink(path)
+    if not r.ok:
+      raise common.MachineryError("AOSeqTrace failed: %s %s" % (r.violated, r.error))
+    v = {p["tid"]: p for p in r.printed if isinstance(p, dict) and "tid" in p}
+    run.add(states=r.distinct, transitions=r.generated)
+    for t in part:
+      x = v.get(t["tid"])
+      if x is None:
+        raise common.MachineryError("LockingDeque op sequence %d not consumed by AOSeqTrace" % t["tid"])
+      total += 1
+      if "bad" in x:
+        op = t["ops"][x["at"] - 1]
+        key = "clear-raises" if op[0] == "clear" and "Raised" in x["bad"] else "%s@%s" % ("+".join(sorted(x["bad"])), op[0])
+        run.violation(key, "LockingDeque(cap %d) op %d %s: %s" % (cap, x["at"], op, x["bad"]), {"cap": cap, "ops": t["ops"], "verdict": x})
+  run.add(traces_validated_against_impl=total, evaluations=total,
+          distinct_nontrivial=len({json.dumps([t["cap"], [o[:2] for o in t["ops"]]]) for t in traces}))
+  run.sample({"cap": traces[0]["cap"], "ops": traces[0]["ops"]})
+  # (B2) the plain deques of queued charts (post_fifo/post_lifo/defer on full queues), validated against Hsm.tla
+  P = gen.profile(hosts=(("queued", 1),), p_eff=0.5, live=0.0, clocks=("fine",), nops=(8, 18), caps=(1, 2, 3),
+                  w_ops=dict(seq.QOPS, post=40, defer=20, step=15))
+  seqcheck.run(run, "C16", 1500 if tier == "quick" else 20000, P,
+               attr=lambda v: {"C16"} if set(v.get("bad", [])) & {"Q", "DQ"} else set())
+  return run.finish()
